@@ -80,6 +80,10 @@ func (i *interpreter) isJSONScalar(t types.Type) bool {
 
 // deepCopyAll copies a value completely (all fields), following pointers.
 func (i *interpreter) deepCopyAll(t types.Type, v value) value {
+	if isBigIntStruct(t) {
+		s := v.(structure)
+		return structure{s[0], s[1]}
+	}
 	switch u := t.Underlying().(type) {
 	case *types.Struct:
 		s := v.(structure)
